@@ -1,0 +1,55 @@
+//go:build verif
+
+package p2p
+
+import (
+	"errors"
+	"time"
+
+	"github.com/libp2p/go-libp2p/core/peer"
+)
+
+// Accessors for the verification harness (build tag verif): they expose the peer tracker's
+// state and let a test stand in for a session (scoring a peer, blocking a misbehaving one).
+// Nothing in the package calls them.
+
+// VerifTrackerState returns the scores of the tracked and of the disconnected peers.
+func (ex *Exchange[H]) VerifTrackerState() (tracked, disconnected map[peer.ID]float32) {
+	p := ex.peerTracker
+	p.peerLk.RLock()
+	defer p.peerLk.RUnlock()
+	tracked = make(map[peer.ID]float32, len(p.trackedPeers))
+	for id, st := range p.trackedPeers {
+		tracked[id] = st.score()
+	}
+	disconnected = make(map[peer.ID]float32, len(p.disconnectedPeers))
+	for id, st := range p.disconnectedPeers {
+		disconnected[id] = st.score()
+	}
+	return tracked, disconnected
+}
+
+// VerifTrackerPeers returns what a new session (peers) and a Head request (getPeers(max)) would use.
+func (ex *Exchange[H]) VerifTrackerPeers(max int) (session, head []peer.ID) {
+	for _, st := range ex.peerTracker.peers() {
+		session = append(session, st.peerID)
+	}
+	return session, ex.peerTracker.getPeers(max)
+}
+
+// VerifScorePeer records a served request for a tracked peer, as a session does.
+func (ex *Exchange[H]) VerifScorePeer(id peer.ID, amount int, d time.Duration) bool {
+	p := ex.peerTracker
+	p.peerLk.RLock()
+	st, ok := p.trackedPeers[id]
+	p.peerLk.RUnlock()
+	if ok {
+		st.updateStats(amount, d)
+	}
+	return ok
+}
+
+// VerifBlockPeer blocks a peer, as a session does for a misbehaving one.
+func (ex *Exchange[H]) VerifBlockPeer(id peer.ID) {
+	ex.peerTracker.blockPeer(id, errors.New("verif: blocked by the harness"))
+}
